@@ -144,3 +144,62 @@ def c_machine_dict(h):
             h.check("C10.machine_dict.same_variables_%d" % k, set(s.coefs(t)) == set(s.coefs(o)), "key sets differ")
         h.check("C13.from_dict.fresh", r.attrs["a"] is not c.attrs["a"] and r.attrs["inputvars"] is not c.attrs["inputvars"], "shares state with the original")
     h.frame_ok(back, "C13.frame_from_dict")
+
+
+# ------------------------------------------------------------------------------------------------
+# history: the hash of a contract after it was simplified in place
+# ------------------------------------------------------------------------------------------------
+@contract(
+    "IoContract.__hash__[after in-place simplify]",
+    ["C19", "C13", "C14"],
+    [IOC + ":IoContract.__hash__", IOC + ":IoContract.simplify", IOC + ":IoContract.__init__", IOC + ":IoContract.__eq__"],
+    "S",
+    bound="contract built by its constructor with simplify=False: 1 assumption over {x}, 2 guarantees over {x,z}; hashed, simplified in place (every selection the simplification may return), hashed again",
+    assumes=["A1", "A9-repr", "A9-fmt", "P-simplify.selection: simplification returns some of the constraints"],
+    covers=["dropped", "kept"],
+)
+def c_hash_after_simplify(h):
+    s = S(h)
+    cls = h.I.load_module("pacti.contracts.polyhedral_iocontract").ns["PolyhedralIoContract"]
+    a_terms = [s.term("a0", ["x"], allow_empty=False)]
+    g_terms = [s.term("g0", ["x", "z"], support=["x", "z"]), s.term("g1", ["x", "z"], support=["z"])]
+    ins, outs = PList([s.var("x")], h.ctx), PList([s.var("z")], h.ctx)
+    made = h.call(cls, [], {"assumptions": s.termlist(a_terms), "guarantees": s.termlist(g_terms), "input_vars": ins, "output_vars": outs, "simplify": False})
+    h.check("C14.constructor.no_exception", made.kind == "return", "raised %s at %s" % (made.exc_name, made.where))
+    if made.kind != "return":
+        return
+    c = made.value
+    keep = [[0, 1], [0], [1]][h.ctx.choose(3, "simplify_keeps")]
+
+    def simplify_stub(I, args, kwargs):
+        me = args[0]
+        items = me.attrs["terms"].items
+        return s.termlist([items[i].copy() if hasattr(items[i], "copy") else items[i] for i in keep if i < len(items)])
+
+    h.I.stubs[POLY + ":PolyhedralTermList.simplify"] = simplify_stub
+    h0 = h.call(h.method(c, "__hash__"), [])
+    h.check("C14.hash.no_exception", h0.kind == "return", "hash raised %s" % h0.exc_name)
+    out = h.call(h.method(c, "simplify"), [])
+    h.check("C14.simplify.no_exception", out.kind == "return", "simplify raised %s at %s" % (out.exc_name, out.where))
+    if out.kind != "return" or h0.kind != "return":
+        return
+    h.cover("kept" if len(keep) == 2 else "dropped")
+    h1 = h.call(h.method(c, "__hash__"), [])
+    # an equal contract that has no history: same four fields, never hashed before
+    d = h.call(cls, [], {"assumptions": s.termlist([t for t in c.attrs["a"].attrs["terms"].items]), "guarantees": s.termlist([t for t in c.attrs["g"].attrs["terms"].items]), "input_vars": PList([s.var("x")], h.ctx), "output_vars": PList([s.var("z")], h.ctx), "simplify": False})
+    if d.kind != "return" or h1.kind != "return":
+        h.check("C14.hash.no_exception_after_simplify", False, "raised")
+        return
+    eq = h.call(h.method(c, "__eq__"), [d.value])
+    if eq.kind == "return":
+        h.ensure("C19.history.simplified_contract_equals_its_fresh_twin", _b(eq.value))
+    h2 = h.call(h.method(d.value, "__hash__"), [])
+    if h2.kind == "return":
+        try:
+            heq = h.I.py_eq(h1.value, h2.value)
+        except Unsupported:
+            heq = None
+        h.check("C19.history.hashes_comparable", heq is not None, "hash values of unknown structure")
+        if heq is not None:
+            # equal objects hash equal whatever was done to them before
+            h.ensure("C19.history.hash_recomputed_after_in_place_simplification", _b(heq))
